@@ -94,8 +94,8 @@ impl Known {
 }
 
 pub fn machinery_failure(msg: &str) -> ! {
-    eprintln!("MACHINERY-FAILURE: {msg}");
     println!("MACHINERY-FAILURE: {msg}");
+    let _ = std::io::Write::flush(&mut std::io::stdout());
     std::process::exit(2)
 }
 
@@ -180,4 +180,14 @@ pub fn cov(pairs: Vec<(&str, Value)>) -> Map<String, Value> {
         m.insert(k.to_string(), v);
     }
     m
+}
+
+/// Panics of the code under test are caught and judged by the engines; their default message on stderr is
+/// noise (and stderr is /dev/full anyway). VERIF_DEBUG_PANICS=1 keeps the default hook and prints to stdout.
+pub fn quiet_panics() {
+    if std::env::var_os("VERIF_DEBUG_PANICS").is_some() {
+        std::panic::set_hook(Box::new(|info| println!("PANIC: {info}")));
+    } else {
+        std::panic::set_hook(Box::new(|_| {}));
+    }
 }
